@@ -639,6 +639,46 @@ func runC20(w *World, r *Report) {
 			})
 			r.Check(!isEarly, "C20.workflow-compile-once", "Workflow.compile resets "+name+" only after its elements were applied", fw.in.Pos(), "the reset does not precede the loop over the container", "the container is cleared before the loop that applies its elements ("+w.pos(early)+"): when that loop returns an error (two sources mapped to the same field, the whole input mapped twice — errors that are not sticky in the inner graph) the declarations not reached yet are gone, and the next Compile of the unchanged workflow succeeds, silently dropping the conflicting inputs")
 		}
+		// (b'') the replay order is fixed: the inner graph infers pass-through types from the first edge it is shown and
+		// keeps the first error, so replaying deferred declarations while ranging over a Go map makes the outcome of Compile
+		// depend on the iteration order. No range-over-map loop in Workflow.compile calls a deferred declaration (a func
+		// value) or one of the inner graph's Add* functions.
+		{
+			orderSensitive := map[*ssa.Function]bool{}
+			for _, n := range []string{"graph.addEdgeWithMappings", "graph.addBranch", "graph.addNode"} {
+				orderSensitive[w.Fn("compose", n)] = true
+			}
+			nl := 0
+			for _, li := range mapRangeLoops(wfc) {
+				nl++
+				bad := ""
+				for b := range li.body {
+					for _, in := range b.Instrs {
+						c, ok := in.(*ssa.Call)
+						if !ok {
+							continue
+						}
+						if _, isB := c.Call.Value.(*ssa.Builtin); isB {
+							continue
+						}
+						sc := staticCallee(c)
+						if sc == nil && !c.Call.IsInvoke() {
+							// a deferred declaration: func() error (setters like dependencySetter write a map by key: order-free)
+							if sig, ok := c.Call.Value.Type().Underlying().(*types.Signature); ok && sig.Params().Len() == 0 && sig.Results().Len() == 1 && isErrorType(sig.Results().At(0).Type()) {
+								bad = "a deferred declaration (func() error) is called at " + w.pos(c.Pos())
+							}
+						}
+						if sc != nil && orderSensitive[origin(sc)] {
+							bad = sc.Name() + " is called at " + w.pos(c.Pos())
+						}
+					}
+				}
+				r.Check(bad == "", "C20.workflow-compile-once", "Workflow.compile: "+li.what+" does not replay declarations in map order", li.pos, "no order-sensitive call inside a range over a map", bad+" while ranging over a map: whether the same declarations compile depends on Go's random iteration order (a pass-through node fed through a field mapping is typed from whichever edge is replayed first — the same workflow was accepted 25 and rejected 175 times out of 200)")
+			}
+			if nl == 0 {
+				r.Info("C20.workflow-compile-once", "Workflow.compile: no range over a map", wfc.Pos(), "nothing to order")
+			}
+		}
 		// (c) pending declarations after a successful compile
 		fCompiled := w.Field("compose", "graph", "compiled")
 		okGate := false
@@ -1014,6 +1054,11 @@ func runC20(w *World, r *Report) {
 	}
 
 	// ---- chain sticky
+	// the builder does not write into the objects the caller hands it: a *GraphBranch may be attached to several nodes,
+	// graphs or a Workflow — what belongs to one attachment (position, data-flow flag) lives in the graph's own copy
+	r.Rule("C20.branch-value-not-mutated", "graph.addBranch never writes through its *GraphBranch parameter", 1)
+	ruleNoMutateParams(w, r, "C20.branch-value-not-mutated", w.Fn("compose", "graph.addBranch"), map[string]bool{"branch": true})
+
 	r.Rule("C20.nil-helper-receiver", "graphNode.getGenericHelper never calls a genericHelper method on the still-unset helper of a pass-through node (Add* must return errors, never panic)", 2)
 	nilHelperReceiverCheck(w, r, "C20.nil-helper-receiver")
 
